@@ -193,3 +193,50 @@ Corollary clip_layout_independent (t1 t2 : tb) lo1 hi1 lo2 hi2 : wf_tb t1 -> wf_
 Proof. intros W1 W2 N1 N2 E El Eh. rewrite !clip_refines by assumption. now rewrite E, El, Eh. Qed.
 
 End ClipProofs.
+
+(* ---------- 1-D operand along the rows: chopped per block = zipped per column ---------- *)
+Section BinopRowProofs.
+Context {A B : Type}.
+Variable opc : A -> B -> A.
+Variable fd : dtype -> dtype.
+
+Lemma combine_app_l {X Y} (l1 l2 : list X) (o : list Y) :
+  combine (l1 ++ l2) o = combine l1 (firstn (length l1) o) ++ combine l2 (skipn (length l1) o).
+Proof.
+  revert o. induction l1 as [|x l1 IH]; intros o; [reflexivity|].
+  destruct o as [|y o]; cbn; [now destruct l2|]. f_equal. apply IH.
+Qed.
+
+Lemma skipn_plus {X} (l : list X) : forall a b, skipn a (skipn b l) = skipn (b + a) l.
+Proof.
+  induction l as [|x l IH]; intros a b; [now rewrite !skipn_nil|].
+  destruct b as [|b]; [reflexivity|]. cbn [skipn Nat.add]. apply IH.
+Qed.
+
+Lemma binop_row_go_flatten (t : tb A) : forall start (other : list B),
+  flatten (binop_row_go opc fd t start other)
+  = map (fun co => (fd (fst (fst co)), map (fun x => opc x (snd co)) (snd (fst co)))) (combine (flatten t) (skipn start other)).
+Proof.
+  induction t as [|b r IH]; intros start other; [reflexivity|].
+  cbn [binop_row_go]. rewrite !flatten_cons, IH, combine_app_l, map_app. f_equal.
+  - replace (start + length (b_cols b) - start)%nat with (length (b_cols b)) by lia.
+    rewrite block_columns_length. unfold binop_block, block_columns. cbn [b_dtype b_cols].
+    set (part := firstn (length (b_cols b)) (skipn start other)). clearbody part.
+    generalize (b_cols b). intros cs. revert part. induction cs as [|c cs IHc]; intros [|o part]; try reflexivity.
+    cbn. f_equal. apply IHc.
+  - rewrite block_columns_length, skipn_plus. reflexivity.
+Qed.
+
+Theorem binop_row_refines (t : tb A) (other : list B) : wf_tb t -> t <> [] ->
+  res_map (@flatten A) (M_binop_row opc fd t other) = S_binop_row opc fd (flatten t) other.
+Proof.
+  intros Hwf Hne. unfold M_binop_row, S_binop_row. rewrite tb_column_count_spec.
+  replace (Z.of_nat (length other) =? Z.of_nat (length (flatten t))) with (Nat.eqb (length other) (length (flatten t)))
+    by (destruct (Nat.eqb_spec (length other) (length (flatten t))); lia).
+  destruct (Nat.eqb (length other) (length (flatten t))); cbn [negb]; [|reflexivity].
+  destruct t as [|b r]; [congruence|]. cbn [binop_row_go from_blocks_gen res_map].
+  change (binop_block opc fd b (firstn (0 + length (b_cols b) - 0) (skipn 0 other)) :: binop_row_go opc fd r (0 + length (b_cols b)) other)
+    with (binop_row_go opc fd (b :: r) 0 other).
+  rewrite binop_row_go_flatten. reflexivity.
+Qed.
+End BinopRowProofs.
